@@ -150,7 +150,7 @@ void do_free(int hi) {
 
 // ---- concurrent life-cycle mode: calls on one name overlap freely. Oracles that hold for every interleaving:
 //  * an object CREATED by a new(name, v, mode) call starts with exactly v;
-//  * new() may only fail while another life-cycle call on the same name overlaps it;
+//  * new() may only fail while another life-cycle call on the same name overlaps it, and in CREATE mode never;
 //  * units are conserved per system object; nobody stays blocked in acquire while units are available.
 int do_new_c(int name, int value, PSemaphoreAccessMode mode) {
   if (S->nh >= MAXHND) return -1;
@@ -163,6 +163,8 @@ int do_new_c(int name, int value, PSemaphoreAccessMode mode) {
   S->life_epoch[name]++;
   if (!h) {
     if (!overlapped) violate("new_failed", "concurrent_mode,not_overlapped", "p_semaphore_new(%s, %d) returned NULL (native %d) with no other life-cycle call on that name in flight", user_names[name], value, err ? p_error_get_native_code(err) : 0);
+    // CREATE mode succeeds whether or not the name exists - also when it appears or disappears while the call runs
+    if (mode == P_SEM_ACCESS_CREATE) violate("new_failed", "concurrent_mode,mode=CREATE", "p_semaphore_new(%s, %d, CREATE) returned NULL (native %d) while other life-cycle calls on that name were in flight", user_names[name], value, err ? p_error_get_native_code(err) : 0);
     probe("sem.new_failed_under_overlap");
     return -1;
   }
@@ -223,7 +225,8 @@ void script(int nops) {
     uint32_t r = gen(10);
     if (mine.empty() || r < 2) {
       int name = (int)gen(MAXN);
-      int v = (int)gen(4);
+      static const int bigs[] = {255, 256, 32767, 65536, 1000000};
+      int v = gen(10) == 0 ? bigs[gen(5)] : (int)gen(4);      // mostly tiny (a wait is reachable), sometimes large (no truncation of the value)
       PSemaphoreAccessMode mode = gen(3) == 0 ? P_SEM_ACCESS_CREATE : P_SEM_ACCESS_OPEN;
       if (mine.size() < 4) { if (S->concurrent_lifecycle) do_new_c(name, v, mode); else do_new(name, v, mode); }
     } else {
